@@ -439,6 +439,8 @@ FORCED = dict(
     rep={"epr": 0.03125, "duration": 60, "multi": True},
     nonrep={"epr": 0.015625, "duration": 45, "multi": True},
     pre_sim_emissions=True,
+    ndays=200,
+    n_sites=5,
 )
 
 
